@@ -191,7 +191,7 @@ func TestC19(t *testing.T) {
 	}
 
 	// mixed specs over one cache (Roller style), several names, clock steps
-	nh := mon.Pick(500, 3000)
+	nh := mon.Pick(500, 60000)
 	parallel(nh, func(i int) {
 		rg := Sub("C19mix", i)
 		pool := []Target{}
